@@ -361,11 +361,11 @@ int main(int argc, char** argv) {
             evEmit(J().str("e", "DropRemove").str("tag", tag));
           } else {
             UnitS u;
-            int nr = 1 + (r.chance(30) ? 1 : 0);
+            int nr = 1 + (r.chance(35) ? 1 : 0);
             std::set<std::string> usedNames;
             for (int q = 0; q < nr; q++) {
               RsS d;
-              d.name = r.chance(10) ? "ghost" : cfg[r.upto((int)cfg.size())].name;
+              d.name = r.chance(q == 1 ? 30 : 10) ? "ghost" : cfg[r.upto((int)cfg.size())].name;
               if (usedNames.count(d.name)) continue;
               usedNames.insert(d.name);
               std::string pfx = tag + "." + std::to_string(k) + "." + std::to_string(o) + "." + std::to_string(q);
@@ -377,9 +377,25 @@ int main(int argc, char** argv) {
             IR::Root dr;
             for (auto& d : u.rulesets) dr.rulesets.push_back(toIR(d, true));
             for (auto& h : u.hooks) dr.prekill_hooks.push_back(toIR(h));
+            bool ghostLater = u.rulesets.size() >= 2 && u.rulesets[0].name != "ghost" && u.rulesets[1].name == "ghost";
+            if (ghostLater && r.chance(70)) {
+              // the ENGINE's own refusal: a unit whose first ruleset hits a known base and whose second one targets a
+              // ruleset the engine does not have (compiled against a root that has it) - the engine must clean up what it
+              // already took, exactly as the adaptor does: remove the tag, then try to add
+              IR::Root rootG = root;
+              RsS g = cfg[0]; g.name = "ghost"; g.dod = false; g.pd = true; g.pa = true; g.pat.clear(); g.filter.clear();
+              rootG.rulesets.push_back(toIR(g, false));
+              engine->removeDropInConfig(tag);
+              evEmit(J().str("e", "DropRemove").str("tag", tag));
+              auto unit = Oomd::Config2::compileDropIn(rootG, dr, pcc);
+              bool ok = unit.has_value() && engine->addDropInConfig(tag, std::move(*unit));
+              unit.reset();
+              evEmit(J().str("e", "DropAdd").str("tag", tag).boolean("ok", ok).raw("unit", unitJson(u)).boolean("engineLevel", true));
+            } else {
             bool ok = adaptor.add(tag, dr);
             adaptor.updateDropIns();
             evEmit(J().str("e", "DropAdd").str("tag", tag).boolean("ok", ok).raw("unit", unitJson(u)));
+            }
           }
           auto st = Oomd::getStats();
           evEmit(J().str("e", "Stat").num("added", st[Oomd::CoreStats::kNumDropInAdds])
